@@ -2,6 +2,7 @@
 from trkgen import *
 
 ID = "C06"
+THEOREM_MODULES = ["SimVerif.Props.C06", "SimVerif.Props.C06b"]
 THEOREM_MODULE = "SimVerif.Props.C06"
 NONTRIVIAL_FLAGS = {"pipelined-batches", "pipeline-overlap", "multi-scene-batch", "trace-validated", "slow-consumer-probe", "compared-nonempty", "competition", "shards-interleaved"}
 RULE = ("batch sequences over 1..4 scenes on the real batch tracker (distance shards 1..4, voting workers 1..4, seeded delays of the store workers, a consumer that retrieves immediately or only after a delay), "
@@ -18,6 +19,7 @@ LEVEL_TEXT = ("Lean 4 theorems about the protocol model, for every number of sce
               "every transition strictly decreases a weighted count of outstanding work, so every schedule terminates. Data refinement: scene steps of one batch commute (C04_frame), so a batch is the per-scene simple steps in any order. "
               "The real batch trackers are compared scene by scene with the simple trackers, and every logged event trace is replayed as a path of the protocol model.")
 LEVEL_NOTE = "Trusted: Lean kernel; protocol model<->code tie by validated traces (sampled schedules); channel/condvar semantics assumed."
+PARTIAL = ["the renaming of ids between the batch tracker (ids drawn per candidate from the batch range) and the simple tracker (consecutive ids) is not a theorem: the two are compared by the run up to renaming; the theorems cover the protocol (one batch) and the order independence of the scene jobs"]
 TECHNIQUE = "Lean 4 proof (invariant by induction over traces, progress by case analysis, decreasing measure) with trace validation against the implementation and a batch-vs-simple differential run"
 
 
